@@ -13,7 +13,7 @@ CONSTANTS
   PNameI = {1, 7}
   PValI = {1, 5, 2}
   KP = 2
-  HNameI = {1, 3}
+  HNameI = {1}
   HValI = {1, 5, 2}
   KH = 1
   XNameI = {}
